@@ -44,7 +44,7 @@ def strategy(tier):
         allow_identical=False, formalisms=("helicity", "helicity", "canonical-helicity"),
         spin2_max=5 if thorough else 2, spin_k_max=2 if thorough else 1, max_transitions=96 if thorough else 18,
     )
-    return st.fixed_dictionaries({
+    generic = st.fixed_dictionaries({
         "family": st.just("model"),
         "spin1_budget": st.just(2 if thorough else 1),
         "alignment": st.sampled_from(["axisangle", "axisangle", "dpd1", "dpd2", "dpd3"]),
@@ -52,6 +52,37 @@ def strategy(tier):
         "event_seed": st.integers(0, 2**31 - 1),
         "coupling_seed": st.integers(0, 2**31 - 1),
     })
+
+    # targeted family: a *massless* spin-1/2 particle next to a resonance that decays to a *massive* spin-1 particle
+    # (tau -> nu a1 -> nu rho pi like).  The helicity-rotation sums of the massive particle must keep projection 0
+    # although a massless particle sits in its rotation chain (and the massless one must drop nothing, being
+    # spin 1/2); in the generic family mass 0 and spin 1 rarely meet in one reaction.
+    def targeted(args):
+        pos, swap, k_res, p_res, k_init, third_s2, es, cs = args
+        others = [i for i in range(3) if i != pos]
+        if swap:
+            others.reverse()
+        finals = [None, None, None]
+        finals[pos] = {"s2": 1, "P": 1, "m": 0.0, "latex": 0}  # the massless spectator
+        finals[others[0]] = {"s2": 2, "P": -1, "m": 0.775, "latex": 0}
+        finals[others[1]] = {"s2": third_s2, "P": -1, "m": 0.135, "latex": 0}
+        r = {
+            "formalism": "helicity", "n": 3, "mu": 0.3, "final": finals, "ident": [],
+            "initial": {"k": k_init, "P": 1, "eps": 0.3, "width": 0.0},
+            # base topology 0(12): perm[0] is the spectator
+            "topos": [{"idx": 0, "perm": [pos, *sorted(others)], "res": [{"k": k_res, "P": p_res, "eps": 0.1, "width": 0.1}],
+                       "pc": [False, False]}],
+            "hel_init": 0, "hel_final": [0, 0, 0], "max_transitions": 96,
+        }
+        return {"family": "model", "spin1_budget": 1, "alignment": "axisangle", "reaction": r, "event_seed": es,
+                "coupling_seed": cs, "targeted": "massless_next_to_massive_spin1"}
+
+    target = st.tuples(
+        st.integers(0, 2), st.booleans(), st.integers(1, 2 if thorough else 1), st.sampled_from([1, -1]),
+        st.integers(0, 1 if thorough else 0), st.sampled_from([0, 0, 1] if thorough else [0]), st.integers(0, 2**31 - 1),
+        st.integers(0, 2**31 - 1),
+    ).map(targeted)
+    return st.integers(0, 7).flatmap(lambda w: target if w == 0 else generic)
 
 
 def fixed_cases(tier):
@@ -115,6 +146,8 @@ def run_case(desc) -> Result:  # noqa: C901, PLR0912, PLR0914
     models = {}
     prepared0 = None
     labels = [f"n={n}", rdesc["formalism"], *[f"align={a}" for a in labels_al]]
+    if desc.get("targeted"):
+        labels.append(f"targeted:{desc['targeted']}")
     for al in alignments:
         prepared = prepare(rdesc, dict(DEFAULT_CONFIG, alignment=al, axisangle_spin1_budget=desc.get("spin1_budget", 2)))
         if prepared is None:
